@@ -139,7 +139,15 @@ def one_line_values(sh):
             continue
         rng = V.rng_for('c06v', sh.seed, i)
         kind = i % 5
-        if kind == 3:
+        if i % 11 == 0:
+            import decimal
+            import fractions
+            pool = [decimal.Decimal('1.25'), fractions.Fraction(1, 3), complex(1, -2), range(3), bytearray(b'xy'), slice(1, 2), memoryview(b'ab').obj and 3j, NotImplemented]
+            n_el = rng.choice([1, 2, 5, 12, 20])
+            els = [rng.choice(pool) for _ in range(n_el)]
+            value = rng.choice([els, tuple(els), {'k': els}, [els[:3], els]])
+            recipe = 'repr-fallback-elements'
+        elif kind == 3:
             tname, value = insts[rng.randrange(len(insts))]
             value = rng.choice([value, [value], {'k': value}])
             recipe = None
@@ -155,7 +163,7 @@ def one_line_values(sh):
             continue
         M.take_warnings()
         if '\n' in line:
-            if recipe is not None and small_plain(value):
+            if recipe is not None and small_plain(value) and (recipe != 'repr-fallback-elements' or True):
                 # no printer-forced break applies (no comment, no dict with more than 2 pairs, no long sequence):
                 # every group is unforced and everything fits into 10**6 columns
                 sh.violation('small-value-not-on-one-line', 'a value without any printer-forced break is not printed on one line at width 10**6: %r' % line[:300],
@@ -200,7 +208,7 @@ def replay_term(which, wit):
     from ..runner import Shard
     sh = Shard('replay', 0, 0, 1)
     c = wit['case']
-    if 'recipe' in c and c['recipe'] is None:
+    if 'recipe' in c and (c['recipe'] is None or c['recipe'] == 'repr-fallback-elements'):
         print('non-recipe value (stdlib / pretty_call), index', c.get('i'), 'seed', c.get('seed'), c)
         return False
     if 'recipe' in c:
